@@ -16,7 +16,7 @@ TECHNIQUE = ('differential + metamorphic runtime monitors on generated acyclic r
 RULE = ('cases = acyclic rule sets over <= 8 names (acyclic including the undefined->default edge): random expression '
         'bodies mixing role checks, recording checks and rule: references; dedicated shapes: alias chains to depth 8, '
         'diamonds, references under not/and/or, undefined references; with and without a default rule (option default name, constructor name, '
-        'constructor check object); every rule enforced under all 16 subsets of 4 roles. Non-trivial = the '
+        'constructor check object); every rule enforced under all 16 subsets of 4 roles; stratum `redefinition`: some rules are redefined under the living enforcer (merge, store update, item assignment, overwrite) and everything is re-decided against the new definitions. Non-trivial = the '
         'rule set contains at least one rule: reference reached from the enforced rule; distinct = distinct rule set.')
 ASSUMPTIONS = ['role:/@/! leaves evaluate as C01/C04 state', 'the harness registers two private check kinds and removes them afterwards']
 LEVEL_TEXT = ('Seeded sampling of acyclic reference graphs with targeted shapes (chains, diamonds, undefined references), '
@@ -25,7 +25,7 @@ LEVEL_TEXT = ('Seeded sampling of acyclic reference graphs with targeted shapes 
 LEVEL_NOTE = 'trusted: the reference evaluator with expansion; generated graphs are acyclic by construction (topological order)'
 PLAN = {'quick': dict(shards=4, wall=60), 'thorough': dict(shards=16, wall=400)}
 MIN = {'evaluations': 300, 'reference_decisions': 5000, 'inlined_comparisons': 200, 'current_rule_observations': 500,
-       'undefined_reference_decisions': 100, 'three_arg_calls': 100}
+       'undefined_reference_decisions': 100, 'three_arg_calls': 100, 'redefinition_decisions': 2000}
 ANCHORS = ['oslo_policy._checks:RuleCheck.__call__', 'oslo_policy._checks:_check', 'oslo_policy.policy:Rules.__missing__',
            'oslo_policy.policy:Enforcer.enforce']
 REQUIRED_ANCHORS = ['oslo_policy.policy:Enforcer.enforce']
@@ -49,14 +49,21 @@ def install_kinds():
         def __call__(self, target, creds, enforcer):
             CALLS3[0] += 1
             return self.match in creds['roles']
+    class Rec4(_checks.Check):
+        """A check class whose fourth parameter is NOT called current_rule: the policy name is passed by position."""
+        def __call__(self, target, creds, enforcer, rule_name=None):
+            SEEN.append(rule_name)
+            return self.match in creds['roles']
     _checks.registered_checks['pvrec'] = Rec
     _checks.registered_checks['pvrec3'] = Rec3
+    _checks.registered_checks['pvrec4'] = Rec4
 
 
 def remove_kinds():
     from oslo_policy import _checks
     _checks.registered_checks.pop('pvrec', None)
     _checks.registered_checks.pop('pvrec3', None)
+    _checks.registered_checks.pop('pvrec4', None)
 
 
 def leaf_value(text, roles):
@@ -98,7 +105,7 @@ def gen_body(rnd, depth, leaves):
     return (rnd.choice(['and', 'or']), [gen_body(rnd, depth - 1, leaves) for _ in range(rnd.randint(2, 3))])
 
 
-BASE_LEAVES = ['role:a', 'role:b', 'pvrec:c', 'pvrec3:d', 'role:c', '@', '!']
+BASE_LEAVES = ['role:a', 'role:b', 'pvrec:c', 'pvrec3:d', 'pvrec4:b', 'role:c', '@', '!']
 
 
 def gen_ruleset(rnd):
@@ -249,6 +256,54 @@ def check_case(ctx, case):
                 break
 
 
+def check_redefinition(ctx, case):
+    """rule:NAME decides as NAME's CURRENT definition: evaluate, redefine some rule of the living enforcer (merge without
+    overwrite, direct store update, item assignment, overwrite), evaluate again against the reference on the new set."""
+    from oslo_policy import policy, _parser
+    rules = {k: fromjson(v) for k, v in case['rules'].items()}
+    default = case['default']
+    texts = {k: text_of(v) for k, v in rules.items()}
+    enf = build(policy, case, texts)
+    ctx.case(['redef', texts, case['redefine'], case['how']], nontrivial=True, stratum='redefinition')
+
+    def table(cur):
+        for nm in cur:
+            for roles in SUBSETS:
+                stats = {'object_default': case['default_mode'] == 'ctor-object'}
+                want = ev(cur[nm], cur, default, roles, stats)
+                try:
+                    got = bool(enf.enforce(nm, {}, {'roles': list(roles)}))
+                except Exception as e:
+                    got = 'EXC:' + type(e).__name__
+                ctx.count('redefinition_decisions')
+                if got != want:
+                    return nm, roles, want, got
+        return None
+    bad = table(rules)                          # warm every reference once
+    if bad:
+        return                                  # the single-shot stratum reports this
+    new = {k: fromjson(v) for k, v in case['redefine'].items()}
+    cur = dict(rules)
+    cur.update(new)
+    newtexts = {k: text_of(v) for k, v in new.items()}
+    how = case['how']
+    if how == 'merge':
+        enf.set_rules(policy.Rules.from_dict(newtexts), overwrite=False)
+    elif how == 'update':
+        enf.rules.update({k: _parser.parse_rule(v) for k, v in newtexts.items()})
+    elif how == 'setitem':
+        for k, v in newtexts.items():
+            enf.rules[k] = _parser.parse_rule(v)
+    else:
+        enf.set_rules(policy.Rules.from_dict({k: text_of(v) for k, v in cur.items()}, enf.default_rule), overwrite=True)
+    bad = table(cur)
+    if bad:
+        nm, roles, want, got = bad
+        ctx.violation('reference-follows-stale-definition', case,
+                      {'rules_before': texts, 'redefined': newtexts, 'how': how, 'enforced': nm, 'roles': roles,
+                       'expected': want, 'observed': got})
+
+
 def run(ctx):
     install_kinds()
     try:
@@ -258,6 +313,14 @@ def run(ctx):
                 break
             case = gen_ruleset(ctx.rnd)
             check_case(ctx, case)
+            if i % 3 == 0:
+                # redefine one or two of the lower rules (keeps the graph acyclic: bodies without references)
+                names = sorted(n for n in case['rules'] if n.startswith('n'))
+                if names:
+                    victims = ctx.rnd.sample(names, min(len(names), ctx.rnd.randint(1, 2)))
+                    redefine = {v: gen_body(ctx.rnd, 1, ['role:a', 'role:b', 'role:c', 'role:d', '@', '!', 'pvrec:c']) for v in victims}
+                    check_redefinition(ctx, dict(case, redefinition=True, redefine=redefine,
+                                                 how=ctx.rnd.choice(['merge', 'update', 'setitem', 'overwrite'])))
             if i % 300 == 0:
                 ctx.sample({'rules': {k: text_of(v) for k, v in case['rules'].items()}, 'default': case['default'],
                             'shape': case['shape']})
@@ -270,6 +333,8 @@ def run(ctx):
 def replay(ctx, case):
     install_kinds()
     try:
+        if case.get('redefinition'):
+            return check_redefinition(ctx, case)
         check_case(ctx, case)
     finally:
         remove_kinds()
